@@ -68,9 +68,10 @@ package ecs
 //@ func (*bitMask256).toTypes
 //@   serves C18 C20
 //@   requires reg != nil && 0 <= len(reg.Components) && len(reg.Components) <= maskTotalBits
-//@   loop 1 invariant idx-nonneg: 0 <= idx
+//@   loop 1 invariant idx-nonneg: 0 <= idx && idx <= len(types)
+//@   loop 1 invariant bins: totalIDs == len(reg.Components) && 0 <= totalIDs && totalIDs <= 256 && totalIDs < bins*64 && bins <= 5
 //@   loop 1 invariant words: forall c uint8 :: int(c) < len(reg.Components) && int(c) < __idx*64 && m256has(*b, c) ==> idListed(types, idx, c)
-//@   loop 2 invariant idx-nonneg: 0 <= idx
+//@   loop 2 invariant idx-nonneg: 0 <= idx && idx <= len(types)
 //@   loop 2 invariant words: forall c uint8 :: int(c) < len(reg.Components) && int(c) < i*64 + __idx && m256has(*b, c) ==> idListed(types, idx, c)
 //@   ensures  length: len(result) >= 0
 //@   ensures  complete: forall c uint8 :: int(c) < len(reg.Components) && m256has(*b, c) ==> (exists k int :: 0 <= k && k < len(result) && result[k].id == c)
